@@ -214,7 +214,11 @@ Qed.
 Lemma on_retract_response_RK N s w ids s' : on_retract_response s w ids = Ok s' -> RKN N (core_of s) (core_of s').
 Proof.
   unfold on_retract_response. destruct (retract_response_states (core_of s) w ids []) as [c' groups] eqn:E. intros H.
-  rewrite (send_redirected_core _ _ _ H). change (RKN N (core_of s) c'). eapply retract_response_states_RK; exact E.
+  apply bind_ok in H. destruct H as (s2 & H & H2).
+  assert (X2 : RKN N (core_of s) (core_of s2)).
+  { rewrite (send_redirected_core _ _ _ H). change (RKN N (core_of s) c'). eapply retract_response_states_RK; exact E. }
+  destruct (retract_wakes _ _ _ _); inversion H2; subst s'; clear H2; [|exact X2].
+  eapply RKN_step; [exact X2 | reflexivity].
 Qed.
 
 (** * Server: what remains of [on_remove_worker] after the lost worker's own sets *)
